@@ -114,11 +114,19 @@ def check_arrays(ra1, dec1, ra2, dec2, s, chunk, k, sep=None):
             miss[m1, m2] = False
         if miss.any():
             idx = np.argwhere(miss)
-            i, j = int(idx[0][0]), int(idx[0][1])
-            bad.append(('spherematch:missing-pair:' + S.chunk_class(s, chunk),
-                        '%d of %d true pair(s) missing, e.g. (%d,%d) sep %.12g < %.12g'
-                        % (len(idx), info['ntrue'], i, j, sep[i, j], s)))
-            info['first_missing'] = (i, j)
+            seen = {}
+            for i, j in idx[:400]:
+                i, j = int(i), int(j)
+                trig = S.lost_pair_trigger(ra1, dec1, i, ra2[j], dec2[j], s, S.effective_chunk(s, chunk, False),
+                                            S.chunk_class(s, chunk), GUARD_B)
+                if trig not in seen:
+                    seen[trig] = (i, j)
+            info['first_missing'] = {}
+            for trig, (i, j) in seen.items():       # one report per distinct trigger, never lumped
+                sig = 'spherematch:missing-pair:' + trig
+                bad.append((sig, '%d of %d true pair(s) missing, e.g. (%d,%d) sep %.12g < %.12g'
+                            % (len(idx), info['ntrue'], i, j, sep[i, j], s)))
+                info['first_missing'][sig] = (i, j)
     else:
         c1 = np.bincount(m1, minlength=len(ra1)) if n else np.zeros(len(ra1), int)
         c2 = np.bincount(m2, minlength=len(ra2)) if n else np.zeros(len(ra2), int)
@@ -388,8 +396,8 @@ def _run_B(acc, task):
             acc.extra['layerB_true_pairs_across_cell_edge'] += n_edge
         for sig, msg in bad:
             case = make_case(ra1, dec1, ra2, dec2, s, chunk, 0)
-            if 'first_missing' in info and sig.startswith('spherematch:missing-pair'):
-                i, j = info['first_missing']
+            if sig in info.get('first_missing', {}):
+                i, j = info['first_missing'][sig]
                 keep = sorted(set([0, 1, i]))
                 small = make_case(ra1[keep], dec1[keep], ra2[[j]], dec2[[j]], s, chunk, 0)
                 if any(sg == sig for sg, _ in check_case(small)):
